@@ -992,6 +992,14 @@ class Engine:
                 finally:
                     self.ps["tf_disabled"] = old
                 return
+            if cm.path in ("cm:no_grad", "cm:enable_grad"):
+                old = self.ps.get("grad_enabled", True)
+                self.ps["grad_enabled"] = (cm.path == "cm:enable_grad")
+                try:
+                    self._with(st, i + 1, env)
+                finally:
+                    self.ps["grad_enabled"] = old
+                return
             self._with(st, i + 1, env)
             return
         raise Unsupported(f"with on {cm!r}", st)
